@@ -203,6 +203,69 @@ func analyze(pkg *packages.Package, name string, pos token.Pos, body *ast.BlockS
 			live = append(live, b)
 		}
 	}
+	// channel operations that cannot block: the communication clauses of a select that has a default clause
+	nonblock := map[ast.Node]bool{}
+	ast.Inspect(body, func(x ast.Node) bool {
+		switch st := x.(type) {
+		case *ast.FuncLit:
+			return false
+		case *ast.SelectStmt:
+			hasDefault := false
+			for _, c := range st.Body.List {
+				if c.(*ast.CommClause).Comm == nil {
+					hasDefault = true
+				}
+			}
+			if hasDefault {
+				for _, c := range st.Body.List {
+					if cm := c.(*ast.CommClause).Comm; cm != nil {
+						nonblock[cm] = true
+					}
+				}
+			}
+		}
+		return true
+	})
+	// ... and a receive from a channel whose length the function looks at (`if len(q) == 0 { wait }; m := <-q` with
+	// the only consumer holding the lock: the idiom of the PUSH scheduler)
+	lenOf := map[string]bool{}
+	exprText := func(e ast.Expr) string { return types.ExprString(e) }
+	ast.Inspect(body, func(x ast.Node) bool {
+		if c, ok := x.(*ast.CallExpr); ok {
+			if id, ok := c.Fun.(*ast.Ident); ok && id.Name == "len" && len(c.Args) == 1 {
+				lenOf[exprText(c.Args[0])] = true
+			}
+		}
+		return true
+	})
+	// blocking points in a node: channel send / receive (outside such a select), WaitGroup.Wait, time.Sleep
+	addBlocks := func(bl *block, n ast.Node) {
+		if nonblock[n] {
+			return
+		}
+		ast.Inspect(n, func(x ast.Node) bool {
+			switch c := x.(type) {
+			case *ast.FuncLit:
+				return false
+			case *ast.SendStmt:
+				bl.Ops = append(bl.Ops, op{"block", "send", fset.Position(c.Pos()).Line})
+			case *ast.UnaryExpr:
+				if c.Op == token.ARROW && !lenOf[exprText(c.X)] {
+					bl.Ops = append(bl.Ops, op{"block", "recv", fset.Position(c.Pos()).Line})
+				}
+			case *ast.CallExpr:
+				if se, ok := c.Fun.(*ast.SelectorExpr); ok {
+					if f, ok := info.ObjectOf(se.Sel).(*types.Func); ok && f.Pkg() != nil {
+						full := f.FullName()
+						if full == "(*sync.WaitGroup).Wait" || full == "time.Sleep" {
+							bl.Ops = append(bl.Ops, op{"block", full, fset.Position(c.Pos()).Line})
+						}
+					}
+				}
+			}
+			return true
+		})
+	}
 	nlit := 0
 	for _, b := range live {
 		var bl block
@@ -241,9 +304,11 @@ func analyze(pkg *packages.Package, name string, pos token.Pos, body *ast.BlockS
 			case *ast.GoStmt:
 				addCalls(st.Call, false, true)
 			case *ast.ReturnStmt:
+				addBlocks(&bl, st)
 				addCalls(st, false, false)
 				bl.Ops = append(bl.Ops, op{"return", "", fset.Position(st.Pos()).Line})
 			default:
+				addBlocks(&bl, n)
 				addCalls(n, false, false)
 			}
 		}
